@@ -66,6 +66,9 @@ theorem specSet_of_nodup (l : List S.Spec) (h : (l.map key).Nodup) : specSet l =
   simpa [specSet] using foldl_insertSpec l [] (by simpa using h)
 
 
+theorem mkSpecSet_nil : mkSpecSet [] = .ok [] := by
+  simp [mkSpecSet, clauses, SSet.clauses, splitOn, strip, parseAll, SSet.parseAll, specSet]
+
 /-! ### well-formed requirements -/
 
 /-- a member whose string form is one clean clause: it parses back to the member, and the SPECIFIER rule finds exactly
